@@ -239,7 +239,15 @@ func runOpWorld(rc *corepkg, prop string) {
 		}
 		// no command may remove or demote the very peer it is addressed to as the leader (the step's precondition does
 		// not hold, so the operator had to be cancelled instead)
-		if cp := resp.GetChangePeer(); cp != nil && cp.GetPeer().GetId() == resp.GetTargetPeer().GetId() && resp.GetTargetPeer().GetId() != 0 &&
+		// (the first command goes out while the operator is being admitted, without a safety check: an operator built
+		// just before a leader change may ask for it once; from the next heartbeat on PD must know better)
+		dispatched := false
+		for _, t := range ow.opOrder {
+			if !t.left && t.region == resp.GetRegionId() && cmdMatchesOp(resp, t.op) && time.Since(t.op.GetStartTime()) > 50*time.Millisecond {
+				dispatched = true
+			}
+		}
+		if cp := resp.GetChangePeer(); dispatched && cp != nil && cp.GetPeer().GetId() == resp.GetTargetPeer().GetId() && resp.GetTargetPeer().GetId() != 0 &&
 			(cp.GetChangeType().String() == "RemoveNode" || cp.GetChangeType().String() == "AddLearnerNode") {
 			rc.Violate("c09.command", "command-changes-the-leader-it-is-sent-to", "PD sent %s of peer %d of region %d to that very peer as the region's leader", cp.GetChangeType(), cp.GetPeer().GetId(), resp.GetRegionId())
 		}
